@@ -529,6 +529,18 @@ pub fn plans(tier: &str) -> Vec<(Params, Cost)> {
         Cost { preempt: 0, fault: 1, crash: 1, ..Cost::ZERO },
     ));
     if t {
+        // torn unacknowledged append with two writers, a timer tick, the default pause points and one preemption; and
+        // combined with a storage / catalog fault
+        for (name, seg) in [("rotate-every-entry", 1usize), ("two-entries-per-segment", 2 * 700)] {
+            v.push((
+                Params { name: format!("crash-with-torn-unacknowledged-append/2-writers/{name}"), crash: true, torn_append: true, max_crashes: 2, writers: vec![vec![(1, 0), (3, 0)], vec![(2, 0), (4, 0)]], after_restart: vec![(5, 0)], after_restart2: vec![(6, 0)], flush_row_count: 3, max_segment_size: seg, ticks: 1, ..base.clone() },
+                Cost { preempt: 1, crash: 2, ..Cost::ZERO },
+            ));
+        }
+        v.push((
+            Params { name: "fault+crash-with-torn-unacknowledged-append/rotate-every-entry".into(), crash: true, faults: true, torn_append: true, writers: vec![vec![(1, 0), (2, 0), (3, 0)]], after_restart: vec![(4, 0)], flush_row_count: 2, max_segment_size: 1, ticks: 1, ..base.clone() },
+            Cost { preempt: 0, fault: 1, crash: 1, ..Cost::ZERO },
+        ));
         v.push((
             Params { name: "crash-restart-crash/2-writers/rotate-every-entry".into(), crash: true, max_crashes: 2, writers: vec![vec![(1, 0), (3, 0)], vec![(2, 0), (4, 0)]], after_restart: vec![(5, 0)], after_restart2: vec![(6, 0)], max_segment_size: 1, ticks: 1, ..base.clone() },
             Cost { preempt: 1, crash: 2, ..Cost::ZERO },
